@@ -12,7 +12,7 @@ type ParserPlanner struct {
 	ParameterValues []string
 
 	parameterTypedValues [][]any
-	logfmtFields         map[string]string
+	logfmtFields         map[string][]string
 }
 
 func (p *ParserPlanner) IsMatrix() bool { return false }
@@ -30,14 +30,16 @@ func (p *ParserPlanner) Process(ctx *shared.PlannerContext,
 	}
 
 	if len(p.ParameterNames) > 0 {
-		p.logfmtFields = make(map[string]string, len(p.ParameterNames))
+		p.logfmtFields = make(map[string][]string, len(p.ParameterNames))
 		for i, name := range p.ParameterNames {
 			if len(p.parameterTypedValues[i]) == 0 {
 				continue
 			}
 			switch p.parameterTypedValues[i][0].(type) {
 			case string:
-				p.logfmtFields[p.parameterTypedValues[i][0].(string)] = name
+				// two labels may name the same key (| logfmt a="level", b="level"): each of them is extracted
+				key := p.parameterTypedValues[i][0].(string)
+				p.logfmtFields[key] = append(p.logfmtFields[key], name)
 			}
 		}
 	}
